@@ -264,6 +264,16 @@ func checkC12(c *Check) {
 					}
 				}
 				if cc, ok := ins.(*ssa.Call); ok {
+					// a call of a store method that takes the same (non-reentrant) mutex itself
+					if callee := cc.Common().StaticCallee(); callee != nil && callee.Blocks != nil && recvNamed(callee) == sr.Mem {
+						for _, ci2 := range allCalls(callee) {
+							if c2, isC := ci2.(*ssa.Call); isC {
+								if k2, op2 := mutexKey(c2); k2 != "" && (op2 == "lock" || op2 == "rlock") && held[k2] {
+									c.Fail("C12.R1", "relock/"+fnKey(fn)+"/"+callee.Name(), P.Pos(cc.Pos()), "calls "+fnKey(callee)+", which locks "+k2+", while already holding it (self-deadlock: the check never returns and every later check blocks)")
+								}
+							}
+						}
+					}
 					if k, op := mutexKey(cc); k != "" && op == "lock" && held[k] {
 						c.Fail("C12.R1", "relock/"+fnKey(fn), P.Pos(cc.Pos()), "locks "+k+" while already holding it (self-deadlock)")
 					}
